@@ -151,10 +151,17 @@ def prop(spec, rec):
     # 5. cross-check of the oracle itself against numerical integration (sampled)
     if spec["model"] == "cont" and spec.get("rk4") and pilot > 0:
         cf, _ = law.two_stage_after(cap, spec["init"], spec["maxp"], spec["tsoc"], pilot, V, T)
-        num = law.two_stage_rk4(cap, spec["init"], spec["maxp"], spec["tsoc"], pilot, V, T)
-        if abs(cf - num) > 1e-5 * cap:
-            raise RuntimeError("oracle self-check failed: closed form %r vs RK4 %r for %r" % (cf, num, spec))
-        labels.add("rk4_crosscheck")
+        # the ramp-down is stiff when the transition SoC is close to 1: choose the step so that
+        # (decay rate) x (step) <= 0.02, and skip the cross-check where that needs too many steps
+        lam = spec["maxp"] / cap / (1.0 - spec["tsoc"])  # 1/h
+        n = max(2000, int(math.ceil(lam * (T / 60.0) / 0.02)))
+        if n <= 40000:
+            num = law.two_stage_rk4(cap, spec["init"], spec["maxp"], spec["tsoc"], pilot, V, T, n=n)
+            if abs(cf - num) > 1e-5 * cap:
+                raise RuntimeError("oracle self-check failed: closed form %r vs RK4 %r (n=%d) for %r" % (cf, num, n, spec))
+            labels.add("rk4_crosscheck")
+        else:
+            rec.count("rk4_skipped_stiff")
 
     nt = bool(labels & {"crosses_transition", "starts_in_rampdown", "max_power_binds", "fills"})
     rec.case(spec, labels, nt)
